@@ -120,6 +120,8 @@ def run(ctx):
     R4 = ctx.rule('C01.R4', 'HTTP header budget: every pass charges exactly the bytes it hands to the parser (input_body_.size() - input_body_ptr_ at the parse loop), so the 16 KiB header limit does not depend on how the stream was segmented')
     n = reset_rule(ctx, P, R1, 'input')
     ctx.floor(R1, 25)
+    _http_decomposition(ctx, P)
+    _header_line(ctx, P)
     sc = P.fn('cppcms::impl::cgi::scgi::keep_alive')
     rets = [r for r in sc.returns() if sc.ret_value(r) is not None]
     ctx.check(bool(rets) and all(sc.const_value(sc.ret_value(r)) == 0 for r in rets), R3, 'scgi::keep_alive:false', 'SCGI connections can be reused although the class has no per-request reset', sc.where)
@@ -270,3 +272,579 @@ def _guarded_scratch(P, K, fld, Rset):
             if not ok:
                 return None
     return 'every read is dominated by a write or guarded by %s' % (sorted(guards) or 'a local write')
+
+
+def _http_decomposition(ctx, P):
+    """C01.R6: how the embedded HTTP server turns the request line and the header lines into the CGI environment the application reads"""
+    from vlib import lin as _lin
+    from vlib.lin import Lin as _L
+    R6 = ctx.rule('C01.R6', 'embedded HTTP server: request line split at its two spaces into method / URI / protocol; Content-Length and Content-Type kept under their CGI names (and in the typed fields), every other header under HTTP_<NAME>; every parser outcome handled; URI split at "?" into path and QUERY_STRING, the matched script name cut off, PATH_INFO = percent-decoded rest; the request is handed on exactly once')
+    _serves = {}
+
+    def serves(g_, pidx, depth=0):
+        """method g_ of the class calls its handler parameter (or hands it to a method that does) on every path"""
+        key = (g_.id, pidx)
+        if key in _serves:
+            return _serves[key]
+        _serves[key] = False
+        if g_.entry is None or pidx >= len(g_.params) or depth > 3:
+            return False
+        hp_ = g_.params[pidx]['ref']
+        ev = serving_calls(g_, hp_, depth + 1)
+        _serves[key] = bool(ev) and q.always_before_exit(g_, ev)
+        return _serves[key]
+
+    def serving_calls(g_, hp_, depth=0):
+        out = []
+        for i in g_.calls():
+            n_ = g_.N(i)
+            if n_['k'] == 'CXXOperatorCallExpr' and n_.get('op') == '()' and g_.ref_of(n_['ch'][1]) == hp_:
+                out.append(i)
+                continue
+            if hp_ not in g_.subtree_refs(i):
+                continue
+            sh_ = q.short_of(g_.bcallee(i) or '')
+            if sh_ in ('process_request', 'async_read_some_headers', 'async_read_some', 'post', 'async_write', 'error_response'):
+                out.append(i)       # hand-over points of the front-end: the handler travels with the operation
+                continue
+            h_ = P.fns.get(n_.get('callee') or '')
+            if h_ is not None and h_.brecord == g_.brecord and h_ is not g_:
+                pis = [k_ for k_, a_ in enumerate(g_.args(i)) if g_.ref_of(a_) == hp_]
+                if len(pis) == 1 and serves(h_, pis[0], depth):
+                    out.append(i)
+        return out
+    f = P.fn(HTTP + '::some_headers_data_read')
+    S = _lin.Symb(f)          # no substitution of locals here: the rule speaks about the variables the two searches are stored in
+    z = _L.const(0).key()
+    finds = [i for i in f.calls() if q.short_of(f.bcallee(i) or '') == 'find' and len(f.args(i)) == 3 and f.const_value(f.args(i)[2]) == 32]
+    adds = [i for i in f.calls() if q.short_of(f.bcallee(i) or '') == 'add' and f.N(i)['k'] == 'CXXMemberCallExpr' and any(model.strip_targs(r).endswith('::pool_') for r in f.subtree_refs(f.obj(i)) if f.obj(i) is not None) and len(f.args(i)) == 2]
+    ok = len(finds) == 2 and len(adds) == 2
+    if ok:
+        # the variables the two searches are stored in
+        def var_of(call):
+            for (d_, v_) in [(d_, v_) for r_ in set(x for x in f.subtree_refs(f.body) if x.startswith('v:')) for (d_, v_) in f.defs_of_var(r_)]:
+                if v_ is not None and call in set(f.walk(v_)):
+                    return f.ref_of(f.N(d_)['ch'][0]) if f.N(d_)['k'] != 'DeclStmt' else [dd['ref'] for dd in f.N(d_)['decls'] if dd.get('init') is not None and call in set(f.walk(dd['init']))][0]
+            return None
+        f1, f2 = finds
+        sp1, sp2 = var_of(f1), var_of(f2)
+        a1, a2 = f.args(f1), f.args(f2)
+        hb, he = S.lin(a1[0]), S.lin(a1[1])
+        hbv, hev = f.ref_of(a1[0]), f.ref_of(a1[1])
+        SL = q.symb_with_locals(f)
+        whole_line = hbv is not None and hev is not None and any(a_.endswith('header_.c_str()') for a_ in SL.lin(a1[0]).t) and any(a_.endswith('header_.size()') for a_ in (SL.lin(a1[1]) - SL.lin(a1[0])).t)
+        ok = whole_line and sp1 is not None and sp2 is not None and (S.lin(a2[0]) - _L.atom(sp1) - _L.const(1)).key() == z and (S.lin(a2[1]) - he).key() == z
+        if ok:
+            m_, u_ = adds
+            ok = (S.lin(f.args(m_)[0]) - hb).key() == z and f.ref_of(f.args(m_)[1]) == sp1 and (S.lin(f.args(u_)[0]) - _L.atom(sp1) - _L.const(1)).key() == z and f.ref_of(f.args(u_)[1]) == sp2
+            wm = [w for w in q.field_writes(f, 'http::request_method_') if m_ in set(f.walk(w))]
+            wu = [w for w in q.field_writes(f, 'http::request_uri_') if u_ in set(f.walk(w))]
+            ok = ok and len(wm) == 1 and len(wu) == 1
+            # both under "a second space was found"; otherwise the handler gets the error and the function returns
+            g_found = f.gate_edges(lambda atom, pol: f.N(atom)['k'] == 'BinaryOperator' and f.N(atom).get('op') in ('!=', '==') and sp2 in f.subtree_refs(atom) and ((f.N(atom)['op'] == '!=') == pol))
+            ok = ok and bool(g_found) and f.only_through(wm[0], g_found) and f.only_through(wu[0], g_found)
+            protos = [i for i in f.calls() if q.short_of(f.bcallee(i) or '') == 'add' and len(f.args(i)) == 1 and any(model.strip_targs(r).endswith('::pool_') for r in f.subtree_refs(f.obj(i)) if f.obj(i) is not None)]
+            ok = ok and len(protos) == 1 and (SL.lin(f.args(protos[0])[0]) - _L.atom(sp2) - _L.const(1)).key() == z
+    ctx.check(ok, R6, 'request-line:method=[begin,sp1):uri=(sp1,sp2):protocol=after-sp2', 'the request line is not split at its first and second space into method, URI and protocol', f.where)
+    # header mapping
+    envadds = [i for i in f.calls() if q.short_of(f.bcallee(i) or '') == 'add' and f.N(i)['k'] == 'CXXMemberCallExpr' and any(model.strip_targs(r).endswith('::env_') for r in f.subtree_refs(f.obj(i)) if f.obj(i) is not None) and len(f.args(i)) == 2]
+    psh = [i for i in f.calls() if q.short_of(f.bcallee(i) or '') == 'parse_single_header']
+    ok = len(psh) == 1
+    nv = vv = None
+    if ok:
+        nv, vv = f.ref_of(f.args(psh[0])[1]), f.ref_of(f.args(psh[0])[2])
+        ok = nv is not None and vv is not None
+
+    def lit(node):
+        for j in f.walk(node):
+            if f.N(j)['k'] == 'StringLiteral':
+                return f.N(j).get('s')
+        return None
+
+    def is_name(lit_):
+        def pred(atom, pol):
+            n_ = f.N(atom)
+            if n_['k'] != 'BinaryOperator' or n_.get('op') not in ('==', '!=') or f.const_value(n_['ch'][1]) != 0:
+                return False
+            cs = [c for c in f.calls(n_['ch'][0]) if f.callee(c) in ('strcmp', 'strcasecmp')]
+            return bool(cs) and f.ref_of(f.args(cs[0])[0]) == nv and lit(f.args(cs[0])[1]) == lit_ and ((n_['op'] == '==') == pol)
+        return f.gate_edges(pred)
+    if ok:
+        g_cl, g_ct = is_name('CONTENT_LENGTH'), is_name('CONTENT_TYPE')
+        plain = [i for i in envadds if f.ref_of(f.args(i)[0]) == nv and f.ref_of(f.args(i)[1]) == vv]
+        pref = [i for i in envadds if f.ref_of(f.args(i)[0]) != nv and f.ref_of(f.args(i)[1]) == vv and (f.ref_of(f.args(i)[0]) or '').startswith('v:')]
+        clw = q.field_writes(f, 'http::env_content_length_')
+        ctw = q.field_writes(f, 'http::env_content_type_')
+        okm = bool(g_cl) and bool(g_ct) and len(plain) == 2 and len(pref) == 1
+        if okm:
+            in_cl = [i for i in plain if f.only_through(i, g_cl)]
+            in_ct = [i for i in plain if f.only_through(i, g_ct)]
+            okm = len(in_cl) == 1 and len(in_ct) == 1 and in_cl != in_ct
+            okm = okm and bool(clw) and all(f.only_through(w, g_cl) for w in clw) and any(any(f.callee(c) in ('atoll', 'strtoll', 'atol') and f.ref_of(f.args(c)[0]) == vv for c in f.calls(w)) for w in clw)
+            okm = okm and len(ctw) == 1 and f.only_through(ctw[0], g_ct) and f.ref_of(f.N(ctw[0])['ch'][-1]) == vv
+            # HTTP_<NAME>: allocated for strlen(name) + 5 + 1, "HTTP_" copied, the name appended
+            un = f.ref_of(f.args(pref[0])[0])
+            al = [v_ for (d_, v_) in f.defs_of_var(un) if v_ is not None]
+            okp = len(al) == 1 and any(q.short_of(f.bcallee(c) or '') == 'alloc' for c in f.calls(al[0]))
+            if okp:
+                ac = [c for c in f.calls(al[0]) if q.short_of(f.bcallee(c) or '') == 'alloc'][0]
+                sz = S.lin(f.args(ac)[0])
+                sl_ = [a_ for a_ in sz.t if 'strlen' in a_ or a_.startswith('x')]
+                okp = sz.c == 6 and len(sz.t) == 1 and list(sz.t.values()) == [1] and any(f.callee(c) == 'strlen' and f.ref_of(f.args(c)[0]) == nv for c in f.calls(f.args(ac)[0]))
+                cp = [c for c in f.calls() if f.callee(c) in ('strcpy', 'memcpy') and f.ref_of(f.args(c)[0]) == un]
+                ca = [c for c in f.calls() if f.callee(c) in ('strcat',) and f.ref_of(f.args(c)[0]) == un]
+                okp = okp and len(cp) == 1 and lit(f.args(cp[0])[1]) == 'HTTP_' and len(ca) == 1 and f.ref_of(f.args(ca[0])[1]) == nv and q.before(f, cp[0], ca[0]) and q.before(f, ca[0], pref[0])
+                # not reachable for the two names kept as they are
+                okp = okp and not f.only_through(pref[0], g_cl) and not f.only_through(pref[0], g_ct)
+                r_ = f.reachable_blocks(cut_edges=[e_ for e_ in is_name('CONTENT_LENGTH') if False])
+            okm = okm and okp
+        ok = okm
+    ctx.check(ok, R6, 'headers:content-length-and-type-kept:others-as-HTTP_NAME', 'a header is not stored under its CGI name with its value (CONTENT_LENGTH / CONTENT_TYPE as they are and in the typed fields, others as HTTP_ + name)', f.where)
+    # parser outcomes
+    sw = [i for i in f.walk() if f.N(i)['k'] == 'SwitchStmt' and any(q.short_of(f.bcallee(c) or '') == 'step' for c in f.calls(f.N(i)['cond']))]
+    ok = len(sw) == 1
+    if ok:
+        want = {'more_data': 'async_read_some_headers', 'end_of_headers': 'process_request', 'error_observerd': None, 'got_header': 'continue'}
+        cases = {}
+        for j in f.walk(sw[0]):
+            if f.N(j)['k'] == 'CaseStmt':
+                en = [r.rsplit('::', 1)[-1] for r in f.subtree_refs(f.N(j)['lhs']) if r.startswith('e:')]
+                if en:
+                    cases[en[0]] = j
+        ok = set(want) <= set(cases)
+        hp = q.param_by_index(f, 1)
+        for nm_, callee_ in want.items():
+            if not ok:
+                break
+            c_ = cases[nm_]
+            pb = f.point_of(f.N(c_)['sub'])
+            if nm_ == 'got_header':
+                continue
+            # from the case label: the function is left only after the continuation was started (read more / process) or the handler got an error
+            evs = [i for i in serving_calls(f, hp) if (callee_ and q.short_of(f.bcallee(i) or '') == callee_) or q.short_of(f.bcallee(i) or '') not in ('process_request', 'async_read_some_headers')]
+            reach = f.reachable_blocks(start=pb[0], cut_blocks=q.blocks_of(f, evs) - {pb[0]})
+            in_first = any(f.point_of(i)[0] == pb[0] for i in evs)
+            ok = ok and (in_first or f.exit not in reach) and bool(evs)
+            if callee_:
+                direct = [i for i in evs if q.short_of(f.bcallee(i) or '') == callee_ and f.contains(f.N(c_)['sub'], i) or f.point_of(i)[0] in set(f.reachable_blocks(start=pb[0], cut_blocks=[f.point_of(cases[x])[0] for x in cases if x != nm_]))]
+                ok = ok and any(q.short_of(f.bcallee(i) or '') == callee_ for i in direct)
+    ctx.check(ok, R6, 'parser-outcomes:more-data-reads-on:end-of-headers-processes:error-reported', 'an outcome of the header parser is not followed by reading on / processing the request / reporting the error to the handler', f.where)
+    # request line first, headers afterwards; nothing falls through; the handler is always served
+    okx = len(finds) == 2 and len(psh) == 1
+    if okx:
+        flag = lambda pol_: f.gate_edges(lambda atom, pol: model.strip_targs(f.ref_of(atom) or '').endswith('http::first_header_observerd_') and pol is pol_)
+        g_first, g_later = flag(False), flag(True)
+        fw = [w for w in q.field_writes(f, 'http::first_header_observerd_') if f.const_value(f.N(w)['ch'][1]) == 1]
+        okx = bool(g_first) and bool(g_later) and all(f.only_through(i, g_first) for i in finds) and f.only_through(psh[0], g_later) and bool(fw) and all(f.only_through(w, g_first) for w in fw)
+        # the flag is set on every path that took the request line and goes on to the next line
+        if okx:
+            reach = f.reachable_blocks(start=f.point_of(finds[0])[0], cut_blocks=q.blocks_of(f, fw) | f.abnormal_blocks())
+            nxt = [i for i in f.calls() if q.short_of(f.bcallee(i) or '') == 'step']
+            okx = all(f.point_of(i)[0] not in reach for i in nxt) or any(f.point_of(w)[0] == f.point_of(finds[0])[0] for w in fw)
+        # second search only when the first space was found
+        sp1_ = None
+        for (d_, v_) in [(d_, v_) for r_ in set(x for x in f.subtree_refs(f.body) if x.startswith('v:')) for (d_, v_) in f.defs_of_var(r_)]:
+            if v_ is not None and finds[0] in set(f.walk(v_)):
+                sp1_ = [dd['ref'] for dd in f.N(d_)['decls'] if dd.get('init') is not None and finds[0] in set(f.walk(dd['init']))][0] if f.N(d_)['k'] == 'DeclStmt' else f.ref_of(f.N(d_)['ch'][0])
+        g_sp1 = f.gate_edges(lambda atom, pol: f.N(atom)['k'] == 'BinaryOperator' and f.N(atom).get('op') in ('!=', '==') and sp1_ in f.subtree_refs(atom) and ((f.N(atom)['op'] == '!=') == pol))
+        okx = okx and bool(g_sp1) and f.only_through(finds[1], g_sp1)
+        # name / value are used only when the header line parsed
+        g_ph = q.call_gate(f, lambda i: i == psh[0], True)
+        okx = okx and all(f.only_through(i, g_ph) for i in envadds if f.ref_of(f.args(i)[1]) == vv)
+        # protocol version
+        pw = q.field_writes(f, 'http::is_http_11_')
+        okx = okx and len(pw) == 1
+        if okx:
+            rhs = f.N(f.strip(f.N(pw[0])['ch'][1]))
+            cs = [c for c in f.calls(pw[0]) if f.callee(c) == 'strcmp']
+            okx = rhs['k'] == 'BinaryOperator' and rhs.get('op') == '==' and f.const_value(rhs['ch'][1]) == 0 and len(cs) == 1 and lit(f.args(cs[0])[1]) == 'HTTP/1.1' and \
+                (SL.lin(f.args(cs[0])[0]) - _L.atom(sp2) - _L.const(1)).key() == z
+        # content length: 0 only for an empty value
+        zl = [w for w in clw if f.const_value(f.N(w)['ch'][1]) == 0]
+        g_empty = f.gate_edges(lambda atom, pol: f.N(atom)['k'] == 'BinaryOperator' and f.N(atom).get('op') in ('!=', '==') and vv in f.subtree_refs(atom) and f.const_value(f.N(atom)['ch'][1]) == 0 and
+                               f.N(f.strip(f.N(atom)['ch'][0]))['k'] in ('UnaryOperator', 'ArraySubscriptExpr') and ((f.N(atom)['op'] == '==') == pol))
+        okx = okx and len(clw) == 2 and len(zl) == 1 and bool(g_empty) and f.only_through(zl[0], g_empty) and not any(f.only_through(w, g_empty) for w in clw if w not in zl)
+    ctx.check(okx, R6, 'request-line-first:headers-after:protocol-version:empty-content-length', 'the first line is not the only one taken as the request line, a header is used although it did not parse, HTTP/1.1 is not recognised from the protocol field, or a non-empty Content-Length is read as 0', f.where)
+    if len(sw) == 1 and 'got_header' in cases:
+        c_ = cases['got_header']
+        pb = f.point_of(f.N(c_)['sub'])
+        disp = f.point_of(f.N(sw[0])['cond'])[0]
+        reach = f.reachable_blocks(start=pb[0], cut_blocks=[disp])
+        others = [i for i in f.calls() if q.short_of(f.bcallee(i) or '') in ('process_request', 'async_read_some_headers')]
+        ctx.check(all(f.point_of(i)[0] not in reach for i in others), R6, 'parser-outcomes:got-header-does-not-fall-into-the-next-case', 'after a header line the code falls through into the handling of another parser outcome', f.loc(c_))
+    hp0 = q.param_by_index(f, 1)
+    serve = serving_calls(f, hp0)
+    ctx.check(bool(serve) and q.always_before_exit(f, serve), R6, 'some_headers_data_read:handler-called-or-passed-on-on-every-path', 'the function can return without calling the handler or passing it on: the request hangs', f.where)
+    # body bytes that arrived together with the headers are handed out first, exactly once, in order
+    rb = [x for x in P.by_bname.get(HTTP + '::async_read_some', []) if len(x.params) == 3]
+    if rb:
+        rb = rb[0]
+        Sr = _lin.Symb(rb)
+        dst, cnt, hh = q.param_by_index(rb, 0), q.param_by_index(rb, 1), q.param_by_index(rb, 2)
+        mcp = [i for i in rb.calls() if rb.callee(i) == 'memcpy']
+        okb = len(mcp) == 1
+        if okb:
+            a = rb.args(mcp[0])
+            sn = rb.N(rb.strip(a[1]))
+            from_cursor = False
+            if sn['k'] == 'UnaryOperator' and sn.get('op') == '&':
+                ix = rb.N(rb.strip(sn['ch'][0]))
+                if ix['k'] == 'CXXOperatorCallExpr' and ix.get('op') == '[]' and len(ix['ch']) == 3:
+                    from_cursor = model.strip_targs(rb.ref_of(ix['ch'][1]) or '').endswith('http::input_body_') and model.strip_targs(rb.ref_of(ix['ch'][2]) or '').endswith('http::input_body_ptr_')
+            else:
+                src = Sr.lin(a[1])
+                PTR = [a_ for a_ in src.t if a_.endswith('input_body_ptr_')]
+                from_cursor = len(PTR) == 1 and src.t[PTR[0]] == 1 and any('input_body_' in a_ and a_ != PTR[0] for a_ in src.t)
+            okb = rb.ref_of(a[0]) == dst and rb.ref_of(a[2]) == cnt and from_cursor
+            adv = [w for w in q.field_writes(rb, 'http::input_body_ptr_') if rb.N(w)['k'] == 'CompoundAssignOperator']
+            post = [i for i in rb.calls() if q.short_of(rb.bcallee(i) or '') == 'post' and hh in rb.subtree_refs(i)]
+            okb = okb and len(adv) == 1 and rb.N(adv[0]).get('op') == '+=' and rb.ref_of(rb.N(adv[0])['ch'][1]) == cnt and q.before(rb, mcp[0], adv[0]) and len(post) == 1 and q.always_after(rb, mcp[0], post) and \
+                cnt in rb.subtree_refs(post[0]) and q.always_after(rb, mcp[0], adv)
+            # the count handed to the handler is the count copied: the only writes to it lie before the copy
+            okb = okb and not any(q.reaches(rb, mcp[0], w) for w in q.writes_to(rb, cnt))
+            g_buf = q.empty_gate(rb, None, False)
+            sockr = [i for i in rb.calls() if q.short_of(rb.bcallee(i) or '') == 'async_read_some' and hh in rb.subtree_refs(i)]
+            okb = okb and bool(g_buf) and rb.only_through(mcp[0], g_buf) and len(sockr) == 1 and dst in rb.subtree_refs(sockr[0]) and cnt in rb.subtree_refs(sockr[0]) and not rb.only_through(sockr[0], g_buf)
+            okb = okb and q.always_before_exit(rb, post + sockr)
+            # the read-ahead buffer is dropped only when everything in it was handed out
+            Sx = q.symb_with_locals(rb)
+
+            def exhausted(atom, pol):
+                n_ = rb.N(atom)
+                if n_['k'] != 'BinaryOperator' or n_.get('op') not in ('==', '!=', '<', '<=', '>', '>='):
+                    return False
+                l_, r_ = Sx.lin(n_['ch'][0]), Sx.lin(n_['ch'][1])
+                d_ = l_ - r_
+                pt = [a_ for a_ in d_.t if a_.endswith('input_body_ptr_')]
+                sz = [a_ for a_ in d_.t if a_.endswith('input_body_.size()')]
+                if len(pt) != 1 or len(sz) != 1 or len(d_.t) != 2 or d_.c != 0 or d_.t[pt[0]] != -d_.t[sz[0]]:
+                    return False
+                if n_['op'] in ('==', '!='):
+                    return (n_['op'] == '==') == pol
+                cons = Sx.rel(atom, pol)
+                from vlib.lin import Lin as _LL
+                return bool(cons) and _lin.implies(cons, _lin.ge(_LL.atom(pt[0]) - _LL.atom(sz[0])))
+            nd = 0
+            for host in [rb] + [h_ for h_ in [P.fns.get(rb.N(i).get('callee') or '') for i in rb.calls()] if h_ is not None and h_.brecord == rb.brecord and h_.entry is not None and not h_.params and h_ is not rb]:
+                Sx = q.symb_with_locals(host)
+
+                def exhausted_h(atom, pol, host=host, Sx=Sx):
+                    n_ = host.N(atom)
+                    if n_['k'] != 'BinaryOperator' or n_.get('op') not in ('==', '!=', '<', '<=', '>', '>='):
+                        return False
+                    d_ = Sx.lin(n_['ch'][0]) - Sx.lin(n_['ch'][1])
+                    pt = [a_ for a_ in d_.t if a_.endswith('input_body_ptr_')]
+                    sz = [a_ for a_ in d_.t if a_.endswith('input_body_.size()')]
+                    if len(pt) != 1 or len(sz) != 1 or len(d_.t) != 2 or d_.c != 0 or d_.t[pt[0]] != -d_.t[sz[0]]:
+                        return False
+                    if n_['op'] in ('==', '!='):
+                        return (n_['op'] == '==') == pol
+                    cons = Sx.rel(atom, pol)
+                    from vlib.lin import Lin as _LL
+                    return bool(cons) and _lin.implies(cons, _lin.ge(_LL.atom(pt[0]) - _LL.atom(sz[0])))
+                g_ex = host.gate_edges(exhausted_h)
+                drops = [i for i in host.calls() if q.short_of(host.bcallee(i) or '') == 'clear' and host.obj(i) is not None and model.strip_targs(host.ref_of(host.obj(i)) or '').endswith('http::input_body_')] + \
+                        [w for w in q.field_writes(host, 'http::input_body_ptr_') if host.N(w)['k'] == 'BinaryOperator' and host.N(w).get('op') == '=']
+                nd += len(drops)
+                okb = okb and (not drops or (bool(g_ex) and all(host.only_through(i, g_ex) for i in drops)))
+            okb = okb and nd >= 1
+        ctx.check(okb, R6, 'async_read_some:read-ahead-bytes-first:copied-counted-and-reported-once', 'body bytes read together with the headers are not copied out from the cursor, counted and reported with the same count before the socket is read', rb.where)
+    # process_request
+    g = P.fn(HTTP + '::process_request')
+    Sg = q.symb_with_locals(g)
+    hp = q.param_by_index(g, 0)
+
+    def genv(name_):
+        return [i for i in g.calls() if q.short_of(g.bcallee(i) or '') == 'add' and g.N(i)['k'] == 'CXXMemberCallExpr' and any(model.strip_targs(r).endswith('::env_') for r in g.subtree_refs(g.obj(i)) if g.obj(i) is not None)
+                and len(g.args(i)) == 2 and any(g.N(j)['k'] == 'StringLiteral' and g.N(j).get('s') == name_ for j in g.walk(g.args(i)[0]))]
+    rm = genv('REQUEST_METHOD')
+    ok = len(rm) == 1 and model.strip_targs(g.ref_of(g.args(rm[0])[1]) or '').endswith('http::request_method_')
+    sc = [i for i in g.calls() if g.callee(i) == 'strchr' and g.const_value(g.args(i)[1]) == 63]
+    ok = ok and len(sc) == 1 and model.strip_targs(g.ref_of(g.args(sc[0])[0]) or '').endswith('http::request_uri_')
+    qs = genv('QUERY_STRING')
+    if ok:
+        qv = None
+        for (d_, v_) in [(d_, v_) for r_ in set(x for x in g.subtree_refs(g.body) if x.startswith('v:')) for (d_, v_) in g.defs_of_var(r_)]:
+            if v_ is not None and sc[0] in set(g.walk(v_)):
+                qv = [dd['ref'] for dd in g.N(d_)['decls'] if dd.get('init') is not None and sc[0] in set(g.walk(dd['init']))][0] if g.N(d_)['k'] == 'DeclStmt' else g.ref_of(g.N(d_)['ch'][0])
+        ok = qv is not None and len(qs) == 1
+        if ok:
+            g_q = g.gate_edges(lambda atom, pol: g.N(atom)['k'] == 'BinaryOperator' and g.N(atom).get('op') in ('==', '!=') and g.ref_of(g.N(atom)['ch'][0]) == qv and g.const_value(g.N(atom)['ch'][1]) == 0 and ((g.N(atom)['op'] == '!=') == pol)) + \
+                g.gate_edges(lambda atom, pol: g.ref_of(atom) == qv and pol is True)
+            qsw = q.field_writes(g, 'http::env_query_string_')
+            Sp = _lin.Symb(g)
+            ok = len(qsw) == 1 and (Sp.lin(g.N(qsw[0])['ch'][1]) - _L.atom(qv) - _L.const(1)).key() == z and g.only_through(qs[0], g_q) and model.strip_targs(g.ref_of(g.args(qs[0])[1]) or '').endswith('http::env_query_string_')
+            padd = [i for i in g.calls() if q.short_of(g.bcallee(i) or '') == 'add' and len(g.args(i)) == 2 and any(model.strip_targs(r).endswith('::pool_') for r in g.subtree_refs(g.obj(i)) if g.obj(i) is not None) and
+                    model.strip_targs(g.ref_of(g.args(i)[0]) or '').endswith('http::request_uri_')]
+            ok = ok and len(padd) == 1 and g.only_through(padd[0], g_q)
+            if ok:
+                ln = Sp.lin(g.args(padd[0])[1])
+                URI = [a_ for a_ in ln.t if a_.endswith('request_uri_')]
+                ok = len(URI) == 1 and (ln - _L.atom(qv) + _L.atom(URI[0])).key() == z
+    ctx.check(ok, R6, 'process_request:method:path-and-query-split-at-?', 'REQUEST_METHOD / QUERY_STRING / the path are not taken from the request line as method, text after the first "?", text before it', g.where)
+    pi = genv('PATH_INFO')
+    sn = genv('SCRIPT_NAME')
+    ud = [i for i in g.calls() if g.bcallee(i) == 'cppcms::util::urldecode']
+    ok = len(pi) == 1 and len(sn) == 1 and len(ud) == 1
+    if ok:
+        a = g.args(ud[0])
+        pv = g.ref_of(a[0])
+        e_ = Sg.lin(a[1]) - Sg.lin(a[0])
+        ok = pv is not None and len(e_.t) == 1 and e_.c == 0 and any(g.callee(c) == 'strlen' and g.ref_of(g.args(c)[0]) == pv for c in g.calls(a[1]))
+        piw = q.field_writes(g, 'http::env_path_info_')
+        ok = ok and len(piw) == 1 and ud[0] in set(g.walk(piw[0])) and model.strip_targs(g.ref_of(g.args(pi[0])[1]) or '').endswith('http::env_path_info_') and q.before(g, piw[0], pi[0])
+        # the script name is cut off only when it is a whole-component prefix of the path
+        cut = [w for w in q.writes_to(g, pv) if any(g.contains(L, w) for L in q.loops(g))]
+        lps = [L for L in q.loops(g) if any(g.contains(L, w) for w in cut)]
+        ok = ok and len(cut) == 1 and len(lps) == 1
+        if ok:
+            L = lps[0]
+            mc = [i for i in g.calls(L) if g.callee(i) == 'memcmp']
+            g_eq = g.gate_edges(lambda atom, pol: g.N(atom)['k'] == 'BinaryOperator' and g.N(atom).get('op') in ('==', '!=') and any(g.callee(c) == 'memcmp' for c in g.calls(atom)) and g.const_value(g.N(atom)['ch'][1]) == 0 and ((g.N(atom)['op'] == '==') == pol))
+            snw = q.field_writes(g, 'http::env_script_name_')
+            ok = len(mc) == 1 and bool(g_eq) and g.only_through(cut[0], g_eq) and len(snw) == 1 and g.only_through(snw[0], g_eq) and g.only_through(sn[0], g_eq)
+            if ok:
+                ma = g.args(mc[0])
+                nsz = Sg.lin(ma[2])
+                cw = g.N(cut[0])
+                inc = Sg.lin(cw['ch'][1]) - (_L.atom(pv) if cw['k'] == 'BinaryOperator' else _L.const(0))
+                ok = g.ref_of(ma[0]) == pv and (inc - nsz).key() == z and len(nsz.t) == 1 and list(nsz.t)[0].endswith('.size()')
+                # the three conditions of a match, as facts: the name fits, the bytes are equal, the path ends there or goes on with '/'
+                PSZ = Sg.lin([c for c in g.calls() if g.callee(c) == 'strlen' and g.ref_of(g.args(c)[0]) == pv and not g.contains(L, c)][0]) if [c for c in g.calls() if g.callee(c) == 'strlen' and g.ref_of(g.args(c)[0]) == pv and not g.contains(L, c)] else None
+
+                def kind(atom, pol):
+                    n_ = g.N(atom)
+                    if n_['k'] != 'BinaryOperator':
+                        return None
+                    if n_.get('op') in ('==', '!=') and any(g.callee(c) == 'memcmp' for c in g.calls(atom)) and g.const_value(n_['ch'][1]) == 0:
+                        return ('bytes', (n_['op'] == '==') == pol)
+                    if n_.get('op') in ('==', '!=') and g.const_value(n_['ch'][1]) == 47:
+                        x = g.N(g.strip(n_['ch'][0]))
+                        if x['k'] == 'ArraySubscriptExpr' and g.ref_of(x['ch'][0]) == pv and (Sg.lin(x['ch'][1]) - nsz).key() == z:
+                            return ('slash', (n_['op'] == '==') == pol)
+                        return None
+                    if n_.get('op') in ('==', '!=', '<', '<=', '>', '>=') and PSZ is not None:
+                        l_, r_ = Sg.lin(n_['ch'][0]), Sg.lin(n_['ch'][1])
+                        if n_['op'] in ('==', '!=') and ((l_ - PSZ).key() == z and (r_ - nsz).key() == z or (r_ - PSZ).key() == z and (l_ - nsz).key() == z):
+                            return ('same', (n_['op'] == '==') == pol)
+                        cons = Sg.rel(atom, pol)
+                        if not cons:
+                            return None
+                        nonneg = [_lin.ge(PSZ), _lin.ge(nsz)]
+                        if _lin.implies(cons + nonneg, _lin.eq(PSZ - nsz)):
+                            return ('same', True)
+                        if _lin.implies(cons + nonneg, _lin.ge(PSZ - nsz)) and not _lin.implies(nonneg, _lin.ge(PSZ - nsz)):
+                            return ('fits', True)
+                        if _lin.implies(cons + nonneg, _lin.ge(nsz - PSZ - _L.const(1))):
+                            return ('fits', False)
+                        # "not equal" has no linear form: recognise the plain comparison
+                        l_, r_ = Sg.lin(n_['ch'][0]), Sg.lin(n_['ch'][1])
+                        if n_['op'] in ('==', '!=') and ((l_ - PSZ).key() == z and (r_ - nsz).key() == z or (r_ - PSZ).key() == z and (l_ - nsz).key() == z):
+                            return ('same', (n_['op'] == '==') == pol)
+                    return None
+
+                def edges_where(test):
+                    out = []
+                    for B in g.blocks.values():
+                        for (s_, lab_, tag_) in g.state_succ(B.id, None):
+                            try:
+                                facts = g.edge_facts(B.id, lab_, None)
+                            except Exception:
+                                facts = []
+                            ks = [kind(a_, p_) for (a_, p_) in facts]
+                            # disjunctive facts (`a || b` true): every arm must satisfy
+                            for (a_, p_) in facts:
+                                n_ = g.N(a_)
+                                if n_['k'] == 'BinaryOperator' and ((n_.get('op') == '||' and p_) or (n_.get('op') == '&&' and not p_)):
+                                    arms = [[kind(x, y) for (x, y) in g.cond_facts(c_, p_)] for c_ in n_['ch']]
+                                    ks.append(('or', arms))
+                            if test(ks):
+                                out.append((B.id, s_, lab_, None))
+                    return out
+                has = lambda ks, k_, v_: (k_, v_) in ks
+                g_bytes = edges_where(lambda ks: has(ks, 'bytes', True))
+                g_fits = edges_where(lambda ks: has(ks, 'fits', True) or has(ks, 'same', True))
+                g_bound = edges_where(lambda ks: has(ks, 'same', True) or has(ks, 'slash', True) or any(k_[0] == 'or' and all(any(x in (('same', True), ('slash', True)) for x in arm) for arm in k_[1]) for k_ in ks if k_))
+                ok = ok and bool(g_bytes) and bool(g_fits) and bool(g_bound) and g.only_through(cut[0], g_bytes) and g.only_through(cut[0], g_fits) and g.only_through(cut[0], g_bound)
+                # conversely a name is passed over only when one of the three fails
+                g_skip = edges_where(lambda ks: has(ks, 'bytes', False) or has(ks, 'fits', False) or (has(ks, 'same', False) and has(ks, 'slash', False)) or
+                                     any(k_[0] == 'or' and all(any(x in (('bytes', False), ('fits', False)) for x in arm) or (('same', False) in arm and ('slash', False) in arm) for arm in k_[1]) for k_ in ks if k_))
+                bstart = g.point_of(g.N(L)['body'])[0]
+                # `same || slash` lowered to two tests in a row: the second false edge means "neither" when its test is reached only over the first false edge
+                for (ka, kb) in (('same', 'slash'), ('slash', 'same')):
+                    ga = edges_where(lambda ks, ka=ka: has(ks, ka, False))
+                    gb = edges_where(lambda ks, kb=kb: has(ks, kb, False))
+                    if ga and gb:
+                        r_ = g.reachable_blocks(start=bstart, cut_edges=ga)
+                        g_skip = g_skip + [e_ for e_ in gb if e_[0] not in r_]
+                inc_b = g.point_of(g.N(L)['inc'])[0] if g.N(L).get('inc', -1) not in (None, -1) else None
+                if inc_b is not None:
+                    reach = g.reachable_blocks(start=bstart, cut_edges=g_skip, cut_blocks=q.blocks_of(g, cut))
+                    ok = ok and inc_b not in reach
+                cl_ = q.counting_loop(g, L)
+                ok = ok and cl_ is not None and cl_['start'] == 0 and cl_['step'] == 1 and cl_['op'] == '<' and any(q.short_of(g.bcallee(c) or '') == 'size' for c in g.calls(cl_['bound']))
+                leaves = [j for j in g.walk(g.N(L)['body']) if g.N(j)['k'] == 'BreakStmt']
+                ok = ok and bool(leaves) and q.always_after(g, cut[0], leaves + g.returns())
+    ctx.check(ok, R6, 'process_request:script-name-cut-at-a-component-boundary:PATH_INFO-is-the-decoded-rest', 'SCRIPT_NAME / PATH_INFO are not the matched script name and the percent-decoded remainder of the path', g.where)
+    # the path is the whole URI when there is no "?"
+    if len(sc) == 1 and len(ud) == 1:
+        pv_ = g.ref_of(g.args(ud[0])[0])
+        whole = [w for w in q.writes_to(g, pv_) if g.N(w)['k'] == 'BinaryOperator' and g.N(w).get('op') == '=' and model.strip_targs(g.ref_of(g.N(w)['ch'][1]) or '').endswith('http::request_uri_')]
+        part = [w for w in q.writes_to(g, pv_) if g.N(w)['k'] == 'BinaryOperator' and g.N(w).get('op') == '=' and any(q.short_of(g.bcallee(c) or '') == 'add' for c in g.calls(w))]
+        reach = g.reachable_blocks(cut_blocks=q.blocks_of(g, whole + part))
+        ctx.check(len(whole) == 1 and len(part) == 1 and g.point_of(ud[0])[0] not in reach, R6, 'process_request:path-is-the-uri-up-to-?-or-all-of-it', 'PATH_INFO can be computed from a path that was never taken from the URI', g.where)
+    # an error is answered only for a malformed request line
+    errs = [i for i in g.calls() if q.short_of(g.bcallee(i) or '') == 'error_response']
+
+    def malformed(atom, pol):
+        n_ = g.N(atom)
+        if n_['k'] != 'BinaryOperator' or n_.get('op') not in ('==', '!='):
+            return False
+        if g.const_value(n_['ch'][1]) == 47 and any(model.strip_targs(r).endswith('http::request_uri_') for r in g.subtree_refs(n_['ch'][0])):
+            x = g.N(g.strip(n_['ch'][0]))
+            return x['k'] == 'ArraySubscriptExpr' and g.const_value(x['ch'][1]) == 0 and ((n_['op'] == '!=') == pol)
+        if any(q.short_of(g.bcallee(c) or '') == 'tocken' for c in g.calls(atom)):
+            return (n_['op'] == '!=') == pol
+        refs = [r for r in g.subtree_refs(atom) if r.startswith('v:')]
+        if len(refs) == 2 and not list(g.calls(atom)):
+            return (n_['op'] == '==') == pol          # rm == rm_end: empty method
+        return False
+    g_mal = g.gate_edges(malformed)
+    ctx.check(bool(errs) and bool(g_mal) and all(g.only_through(i, g_mal) for i in errs), R6, 'process_request:error-only-for-an-empty-or-non-token-method-or-a-uri-without-leading-slash', 'a well-formed request line is answered with an error', g.where)
+    # handed on exactly once on the normal path
+    hc = [i for i in g.calls() if g.N(i)['k'] == 'CXXOperatorCallExpr' and g.N(i).get('op') == '()' and g.ref_of(g.N(i)['ch'][1]) == hp]
+    er = [i for i in g.calls() if q.short_of(g.bcallee(i) or '') == 'error_response' and hp in g.subtree_refs(i)]
+    ok = bool(hc) and q.always_before_exit(g, hc + er)
+    ctx.check(ok, R6, 'process_request:handler-or-error-response-on-every-path', 'process_request can return without handing the request on or answering with an error', g.where)
+    ctx.floor(R6, 11)
+
+
+def _header_line(ctx, P):
+    """C01.R7: parse_single_header exact on short header lines (E3)"""
+    import itertools
+    from vlib import absint
+    from vlib.absint import AV, Arr, PV, Cell, Unsupported
+    R7 = ctx.rule('C01.R7', 'HTTP header line -> (CGI name, value), for every line of the form <2 free bytes> ":" / LWS / value variants (E3, all byte values): accepted exactly when a non-empty token is followed by optional white space and ":"; the name is that token with a-z upper-cased and "-" turned into "_", the value is the rest of the line without leading white space')
+    f = P.fn(HTTP + '::parse_single_header')
+    SEP = set(b'()<>@,;:\\"/[]?={} \t')
+
+    def ref(line):
+        n = len(line)
+
+        def skip(p):
+            while p < n:
+                c = line[p]
+                if c == 13:
+                    if p + 2 < n and line[p + 1] == 10 and line[p + 2] in (32, 9):
+                        p += 3
+                        continue
+                    return p
+                if c in (32, 9):
+                    p += 1
+                    continue
+                return p
+            return p
+        p = skip(0)
+        e = p
+        while e < n and 0x20 <= line[e] <= 0x7E and line[e] not in SEP:
+            e += 1
+        if e == p:
+            return None
+        name = bytes((95 if c == 45 else (c - 32 if 97 <= c <= 122 else c)) for c in line[p:e])
+        p = skip(e)
+        if p == n or line[p] != 58:
+            return None
+        p = skip(p + 1)
+        return name, bytes(line[p:])
+
+    def hooks():
+        def h_alloc(it, fn, i, env):
+            a = it.rvalue(fn, fn.args(i)[0], env)
+            if not (isinstance(a, AV) and a.is_const()) or a.lo < 0 or a.lo > 4096:
+                raise Unsupported('alloc of a non-constant size')
+            return PV(Arr([AV.const(0) for _ in range(a.lo)], 'pool'), 0)
+
+        def h_copy(it, fn, i, env):
+            a = [it.rvalue(fn, x, env) for x in fn.args(i)]
+            if not (len(a) == 3 and all(isinstance(x, PV) for x in a)):
+                raise Unsupported('std::copy shape')
+            n_ = a[1].off - a[0].off
+            for j in range(n_):
+                it.store(('elem', PV(a[2].arr, a[2].off + j)), it.load(('elem', PV(a[0].arr, a[0].off + j))))
+            return PV(a[2].arr, a[2].off + n_)
+        return {'cppcms::impl::string_pool::alloc': h_alloc, 'std::copy': h_copy}
+
+    def cstr(pv):
+        out = []
+        j = pv.off
+        while True:
+            e = pv.arr.elems[j]
+            if e.is_const() and e.lo == 0:
+                return out
+            out.append(e)
+            j += 1
+
+    def run(tmpl, free):
+        fr = sorted(free)
+
+        def runs(it):
+            el, k_ = [], 0
+            for j, v in enumerate(tmpl):
+                if j in free:
+                    el.append(it.inbyte(k_))
+                    k_ += 1
+                else:
+                    el.append(AV.const(v - 256 if v > 127 else v))
+            line = Arr(el + [AV.const(0)], 'str:header')
+            it.hooks = hooks()
+            on, ov = Cell(PV(Arr([AV.const(0)], 'lit'), 0)), Cell(PV(Arr([AV.const(0)], 'lit'), 0))
+            r = it.call_fn(f, [line, on, ov])
+            return r, on.v, ov.v
+        nb = 0
+        for (bx, (r, on, ov), it) in absint.explore(P, runs, [[(-128, 127)] * len(fr)]):
+            nb += 1
+            if not (isinstance(r, AV) and r.is_const()):
+                return 'box %s: verdict not constant' % (bx,), nb
+            cands = []
+            for (lo, hi) in bx:
+                sp = [x - 256 if x > 127 else x for x in list(SEP) + [13, 10, 45, 95, 65, 90, 97, 122, 0x1F, 0x20, 0x7E, 0x7F, 64, 91, 96, 123]]
+                cands.append(sorted(set([lo, hi]) | set(x for x in sp if lo <= x <= hi)))
+            for combo in itertools.product(*cands):
+                line = list(tmpl)
+                for p_, v in zip(fr, combo):
+                    line[p_] = v & 0xFF
+                want = ref(line)
+                if (want is not None) != bool(r.lo):
+                    return 'line %r: code says %s, a header line parser says %s' % (bytes(line), bool(r.lo), want), nb
+                if want is None:
+                    continue
+                got = []
+                for part in (on, ov):
+                    bs = []
+                    for e in cstr(part):
+                        if e.is_const():
+                            bs.append(e.lo & 0xFF)
+                        elif len(e.deps) == 1 and e.vals is not None:
+                            d = next(iter(e.deps))
+                            # value as a function of that input byte: identity, upper-casing or '-' -> '_' (the box is inside one class)
+                            v = combo[d] & 0xFF
+                            cs = set(x & 0xFF for x in e.vals)
+                            if v in cs and len(cs) == bx[d][1] - bx[d][0] + 1 and all(((x - 256 if x > 127 else x) >= bx[d][0] and (x - 256 if x > 127 else x) <= bx[d][1]) for x in cs):
+                                bs.append(v)
+                            elif 97 <= v <= 122 and (v - 32) in cs:
+                                bs.append(v - 32)
+                            elif v == 45 and cs == {95}:
+                                bs.append(95)
+                            else:
+                                return 'line %r: output byte %r is not a recognisable function of input byte %d' % (bytes(line), e, d), nb
+                        else:
+                            return 'line %r: output byte %r depends on several input bytes' % (bytes(line), e), nb
+                    got.append(bytes(bs))
+                if tuple(got) != want:
+                    return 'line %r: code gives name=%r value=%r, expected %r / %r' % (bytes(line), got[0], got[1], want[0], want[1]), nb
+        return None, nb
+    for tmpl, free, tag in ((b'\0\0: v', {0, 1}, 'XY: v'), (b'a\0:\0v', {1, 3}, 'aX:Yv'), (b'Ab-c\0\0 w', {4, 5}, 'Ab-cXY w'), (b'\0k\0v', {0, 2}, 'XkYv'),
+                            (b'a\0\n :v', {1}, 'aX<LF><SP>:v'), (b'a\r\0 :v', {2}, 'a<CR>X<SP>:v'), (b'a\r\n\0:v', {3}, 'a<CR><LF>X:v'), (b'a:\r\n\0v', {4}, 'a:<CR><LF>Xv')):
+        bad, nb = run(list(tmpl), free)
+        ctx.check(bad is None, R7, 'parse_single_header:%s' % tag, bad or '', f.where, detail={'boxes': nb})
+    ctx.floor(R7, 6)
